@@ -61,7 +61,7 @@ def gen_ops_index_arith(rng, spec):
     return ops
 
 
-def gen_spec(rng, tier):
+def gen_spec(rng, tier, allow_scale=False):
     nd = rng.choice([1, 1, 2, 2, 3])
     dims = [rng.choice([1, 2, 3, 4, 5]) for _ in range(nd)]
     while int(np.prod(dims)) > 40:
@@ -71,11 +71,14 @@ def gen_spec(rng, tier):
         lo = rng.choice([-4.0, -1.0, 0.0, 0.5, 2.0])
         w = rng.choice([0.25, 0.5, 1.0, 2.0])
         ranges.append([lo, lo + d * w])          # np.linspace(lo, hi, d+1) is exact
+    # some archives live at a large scale (measures in the thousands), where the archive's epsilon is far below one float32 ulp
+    mscale = rng.choice([1.0, 1.0, 1.0, 1024.0]) if allow_scale else 1.0
+    ranges = [[a * mscale, b * mscale] for a, b in ranges]
     freq = rng.choice([1, 2, 3, 4, 5, 7, 9])
     cap = rng.choice([max(1, freq - 2), freq, freq + 3, 1000, 2, 1])
     return {"kind": "sliding", "dtype": rng.choice(["f", "d"]), "sol_dim": rng.randint(1, 3), "extras": rng.choice(au.EXTRA_LAYOUTS),
             "lr": None, "tmin": None, "offset": rng.choice([0.0, -2.0, 1.5]), "dims": dims, "ranges": ranges,
-            "remap_frequency": freq, "buffer_capacity": cap, "seed": rng.randrange(1 << 30)}
+            "remap_frequency": freq, "buffer_capacity": cap, "seed": rng.randrange(1 << 30), "mscale": mscale}
 
 
 def gen_ops(rng, spec, nops, force_sliver=False):
@@ -90,9 +93,11 @@ def gen_ops(rng, spec, nops, force_sliver=False):
     sliver = spec["dtype"] == "d" and (force_sliver or rng.random() < 0.25)
     bases = [[rng.randrange(-16, 17) / 8.0 for _ in range(rng.choice([1, 2, 3]))] for _ in range(nd)]
 
+    msc = spec.get("mscale", 1.0)
+
     def measures():
         if sliver:
-            return [rng.choice(bases[i]) + rng.randrange(-3, 4) * 2.0 ** -21 for i in range(nd)]
+            return [rng.choice(bases[i]) * msc + rng.randrange(-3, 4) * 2.0 ** -21 for i in range(nd)]
         if pool and rng.random() < 0.3:
             return list(rng.choice(pool))
         m = []
@@ -100,7 +105,7 @@ def gen_ops(rng, spec, nops, force_sliver=False):
             v = centre[i] + rng.randrange(-16, 17) / 8.0
             if rng.random() < 0.1:
                 v = rng.choice([-7.0, 7.0, spec["ranges"][i][0], spec["ranges"][i][1]])
-            m.append(max(-7.0, min(7.0, round(v * 8) / 8.0)))
+            m.append(max(-7.0, min(7.0, round(v * 8) / 8.0)) * msc if v not in (spec["ranges"][i][0], spec["ranges"][i][1]) else v)
         pool.append(m)
         return m
 
@@ -115,10 +120,10 @@ def gen_ops(rng, spec, nops, force_sliver=False):
         if r < 0.06:
             ops.append(["clear"])
         elif r < 0.45:
-            ops.append(["add_single", cand(), rng.choice(["nd", "list"])])
+            ops.append(["add_single", cand(), rng.choice(["nd", "list", "wide"])])
         else:
             n = rng.choice([0, 1, 2, 3, 5, 8])
-            ops.append(["add", [cand() for _ in range(n)], rng.choice(["nd", "list", "f64"]) if n else "nd"])
+            ops.append(["add", [cand() for _ in range(n)], rng.choice(["nd", "list", "f64", "wide"]) if n else "nd"])
         for i in range(nd):
             centre[i] = max(-5.0, min(5.0, centre[i] + drift[i]))
     return ops
@@ -206,6 +211,10 @@ def model_run(driver, spec, ops, stale=False):
 
 
 def compare(driver, spec, ops):
+    if spec.get("mscale", 1.0) > 1.0 and spec["dtype"] == "f":
+        # at this scale the archive's epsilon (1e-6) is below one float32 ulp: m + eps == m in the implementation, so the exact-epsilon
+        # model does not describe it; these cases are judged by the oracle alone (which evaluates index_of in the archive's dtype)
+        return None
     trace, archive, table = run_impl(spec, ops)
     mres = model_run(driver, spec, ops)
     dtype = au.DT[spec["dtype"]]
@@ -337,7 +346,8 @@ def check(rep, tier, seed, driver):
                 "extra-field layouts) and histories of add / add_single / clear with drifting dyadic measures (duplicates, values far outside "
                 "the initial ranges) and dyadic objectives with ties; after every operation feedback, data() with measures, boundaries, bounds, "
                 "statistics and best elite are compared with the extracted model, and the oracle re-derives boundaries / contents / in-own-cell "
-                "from the implementation's outputs alone; non-trivial = at least two remaps and three distinct measure points")
+                "from the implementation's outputs alone; non-trivial = at least two remaps and three distinct measure points" 
+                "; plus: archives at scale 1024 (epsilon below one float32 ulp; float32 ones judged by the oracle alone), float64 measures that are not float32 values, extra-field keyword order varying from call to call")
     cases = au.load_corpus("C15")
     rep.count("corpus_cases", len(cases))
     for k in range(n):
@@ -346,7 +356,7 @@ def check(rep, tier, seed, driver):
             ops = gen_ops_index_arith(rng, spec)
             rep.count("index_arith_cases")
         else:
-            spec = gen_spec(rng, tier)
+            spec = gen_spec(rng, tier, allow_scale=True)
             ops = gen_ops(rng, spec, rng.randint(3, 14 if tier == "quick" else 40))
         cases.append({"spec": spec, "ops": ops})
     remaps = 0
